@@ -27,7 +27,7 @@ def build_graph(g: dict, how: str = "auto") -> NxMixedGraph:
         # the public constructors by turns (a graph is the same graph however it was written down)
         import zlib
 
-        how = ["from_edges", "from_edges", "from_str_edges", "from_adj", "from_str_adj", "copy", "subgraph"][zlib.crc32(("ctor" + graph_key(g)).encode()) % 7]
+        how = ["from_edges", "from_edges_partial_nodes", "from_str_edges", "from_adj", "from_str_adj", "copy", "subgraph", "from_edges"][zlib.crc32(("ctor" + graph_key(g)).encode()) % 8]
     nodes, di, bi = list(g["nodes"]), [tuple(e) for e in g["di"]], [tuple(e) for e in g["bi"]]
 
     def adj(pairs, wrap):
@@ -42,6 +42,15 @@ def build_graph(g: dict, how: str = "auto") -> NxMixedGraph:
         obj = NxMixedGraph.from_adj(nodes=[V(n) for n in nodes], directed=adj(di, V), undirected=adj(bi, V))
     elif how == "from_str_adj":
         obj = NxMixedGraph.from_str_adj(nodes=nodes, directed=adj(di, str), undirected=adj(bi, str))
+    elif how == "from_edges_partial_nodes":
+        # nodes= only has to name the nodes no edge mentions (the documented way to keep an edgeless node); some of the
+        # others are listed as well, in a hash-chosen pattern
+        import zlib
+
+        touched = {x for e in di + bi for x in e}
+        hk = zlib.crc32(("partial" + graph_key(g)).encode())
+        listed = [n for i, n in enumerate(nodes) if n not in touched or (hk >> (i % 16)) & 1]
+        obj = NxMixedGraph.from_edges(nodes=[V(n) for n in listed] or None, directed=[(V(u), V(v)) for u, v in di], undirected=[(V(u), V(v)) for u, v in bi])
     else:
         obj = NxMixedGraph.from_edges(
             nodes=[V(n) for n in nodes],
